@@ -325,12 +325,12 @@ def shard(ctx):
     install(ctx.R)
     pools = gen.Pools()
     # ---- complete sweep of small shapes ------------------------------------
-    nmax = ctx.pick(5, 6)
+    nmax = ctx.pick(5, 7)
     unary = ctx.pick(1, 2)
     i = 0
     swept = {}
     for n in range(1, nmax + 1):
-        u = unary if n <= 5 else 1
+        u = unary if n <= 5 else (1 if n == 6 else 0)
         cnt = 0
         for shape, used in gen.all_shapes(list(range(1, n + 1)), u):
             cnt += 1
@@ -346,7 +346,7 @@ def shard(ctx):
         for k, v in swept.items():
             ctx.sum('sweep_shapes[%s]' % k, v)
     # ---- random larger trees --------------------------------------------------
-    total = ctx.pick(1500, 60000)
+    total = ctx.pick(1500, 150000)
     for i in ctx.indices(total):
         rng = ctx.rng('rand', i)
         n = rng.choice([3, 5, 8, 12, 20, 30, 40]) if rng.random() < 0.5 \
@@ -367,4 +367,4 @@ def replay(ctx, case):
 def evidence_extra(tier, m):
     return {'exhaustive': False,
             'sweeps': 'all unordered shapes over tokens 1..n, n <= %d'
-            % (5 if tier == 'quick' else 6)}
+            % (5 if tier == 'quick' else 7)}
